@@ -129,6 +129,26 @@ impl Writer {
         ensures final(fx)@ == old(fx)@.push(Effect::Shutdown), final(self).bytes == old(self).bytes, final(self).lens == old(self).lens, final(self).flushes == old(self).flushes,
     { unimplemented!() }
 }
+// transport reader (self.reader.lock().await): `avail` is the PROPHECY of all bytes that arrive before EOF/error;
+// one read_buf appends any non-empty prefix of it (every fragmentation), 0 only at end of input
+pub struct Reader { pub ghost avail: Seq<u8> }
+impl Reader {
+    #[verifier::external_body]
+    pub fn read_buf(&mut self, buf: &mut BytesMut) -> (r: io::Result<usize>)
+        ensures
+            r is Ok ==> r->Ok_0 <= old(self).avail.len() && final(buf)@ == old(buf)@ + old(self).avail.subrange(0, r->Ok_0 as int)
+                && final(self).avail == old(self).avail.subrange(r->Ok_0 as int, old(self).avail.len() as int),
+            (r is Ok && r->Ok_0 == 0) ==> old(self).avail.len() == 0,
+            // an error ends the input: by definition of the prophecy nothing was left to arrive before it
+            r is Err ==> final(buf)@ == old(buf)@ && old(self).avail.len() == 0 && final(self).avail == old(self).avail,
+    { unimplemented!() }
+}
+#[verifier::external_body]
+pub fn vx_str_contains(s: &String, pat: &str) -> (r: bool) { s.contains(pat) }
+impl io::Error {
+    #[verifier::external_body]
+    pub fn to_string(&self) -> (r: String) { String::new() }
+}
 pub struct Elapsed;
 #[derive(Clone, Copy)]
 pub struct Duration { pub ms: u64 }
@@ -217,6 +237,7 @@ pub mod tsync {
 
 // hoisted (interior-mutable) part of Session
 pub struct SessionState {
+    pub reader: Reader,
     pub writer: Writer,
     pub streams: HashMap<u32, Arc<Stream>>,
     pub stream_id: AtomicU32,
@@ -231,6 +252,7 @@ pub struct SessionState {
     pub buffer: Vec<u8>,
     pub hb_last_received: Instant,
     pub fx: Ghost<Seq<Effect>>,
+    pub dlog: Ghost<Seq<FrameS>>,   // ghost: every frame recv_loop handed to handle_frame, in order (updated only by specification text injected into recv_loop)
     pub ghost acq_writer: nat,      // how many times the transport-writer lock has been acquired (rule L counter)
 }
 impl SessionState {
@@ -296,3 +318,14 @@ pub broadcast proof fn lemma_submitted_push(fx: Seq<Effect>, e: Effect)
 pub broadcast group group_proj { lemma_closed_push, lemma_failed_push, lemma_waiters_push, lemma_shutdown_push, lemma_deliveries_push, lemma_submitted_push }
 // module paths as written in the source
 pub mod tokio { pub mod sync { pub use super::super::oneshot; pub use super::super::mpsc; pub use super::super::tsync::Mutex; } pub mod time { pub use super::super::time::*; pub use super::super::Duration; pub use super::super::Instant; } }
+
+pub proof fn lemma_dispatch_prefix(dl0: Seq<FrameS>, disp: Seq<FrameS>, rest: Seq<FrameS>, all: Seq<FrameS>, dl: Seq<FrameS>)
+    requires dl == dl0 + disp, disp + rest == all
+    ensures dl.len() >= dl0.len(), dl.subrange(0, dl0.len() as int) == dl0, dl.subrange(dl0.len() as int, dl.len() as int).is_prefix_of(all),
+        rest.len() == 0 ==> dl == dl0 + all
+{
+    assert(dl.subrange(0, dl0.len() as int) =~= dl0);
+    assert(dl.subrange(dl0.len() as int, dl.len() as int) =~= disp);
+    assert(disp =~= all.subrange(0, disp.len() as int));
+    if rest.len() == 0 { assert(disp =~= all); }
+}
